@@ -500,8 +500,17 @@ class FileIndex(Index):
         from whoosh.reading import SegmentReader, MultiReader, EmptyReader
 
         if reuse:
-            # Merge segments with reuse segments
-            segments.extend([segment for segment in reuse.segments() if segment not in segments])
+            # The TOC lists every committed segment of this generation. Only
+            # carry over the segments of re-used readers that were not opened
+            # from a TOC at all (e.g. the in-memory segment of a
+            # BufferedWriter). Segments of an older generation that are no
+            # longer in the TOC were merged away or cleared: their documents
+            # are already in the new segments, or are gone.
+            for r, _ in reuse.leaf_readers():
+                segment = r.segment()
+                if (segment is not None and r.generation() is None
+                    and segment not in segments):
+                    segments.append(segment)
 
         reusable = {}
         try:
